@@ -833,6 +833,7 @@ func FuzzC13(f *testing.F) {
 }
 
 func TestRegressC13(t *testing.T) {
+	c13CombineNothing(t)
 	// F10: the smallest count wins even when it is zero and comes first
 	a := &c13Sink{name: "a", outs: []c13Outcome{{N: 0, Err: true}}}
 	b := &c13Sink{name: "b", outs: []c13Outcome{{N: -1}}}
